@@ -4,6 +4,7 @@ import (
 	"fmt"
 	"go/token"
 	"go/types"
+	"strings"
 
 	"golang.org/x/tools/go/ssa"
 
@@ -134,4 +135,164 @@ func sameViewValue(a ssa.Value, recv *ssa.Parameter) bool {
 		}
 	}
 	return true
+}
+
+// R-SET-2: both operands of a set operation are evaluated.
+//
+// Evaluating an operand is also what loads — and, under FOR UPDATE, locks — its
+// tables. A shortcut that skips the right-hand query because the result is
+// already known (EXCEPT / INTERSECT with an empty left side) returns the right
+// rows but leaves the right-hand tables unlocked and unloaded for the rest of
+// the transaction, and hides their errors.
+
+func init() {
+	Register(&Rule{ID: "R-SET-2", Props: []string{"C09", "C20"}, Floor: 2,
+		Doc:      "every operand of a set operation is evaluated on every success path: in each lib/query function that receives a parser.SelectSet and evaluates an operand of it (selectSet, selectSetForRecursion — found by role: a call whose argument is the LHS / RHS field of the parameter), every path from the entry to a return that may report success passes a call that evaluates set.RHS — directly, or a lib/query function that is handed the same SelectSet and evaluates its RHS on all of its own success paths — and likewise set.LHS unless the function receives the left-hand view as a parameter. `SELECT … FROM a EXCEPT SELECT … FROM b FOR UPDATE` must lock b even when a yields no rows. Decides that the operand queries run, not what the operators compute (R-SET-1, R-REL-5)",
+		Controls: []string{"CtlSetOperandSkipped"},
+		Run:      ruleSet2})
+}
+
+func ruleSet2(c *Ctx) {
+	setT := c.P.Type("lib/parser", "SelectSet")
+	if setT == nil {
+		c.Unknown("anchor: lib/parser.SelectSet", "-", "cannot-analyse: type not found")
+		return
+	}
+	isSetParam := func(fn *ssa.Function) *ssa.Parameter {
+		for _, p := range fn.Params {
+			if types.Identical(p.Type(), setT) || strings.HasSuffix(p.Type().String(), "zzverifpositive.ctlSelectSet") {
+				return p
+			}
+		}
+		return nil
+	}
+	// operandCall: the call evaluates field `name` of the set parameter
+	fieldOf := func(v ssa.Value, set *ssa.Parameter, name string) bool {
+		for _, o := range core.Origins(v, false) {
+			switch x := o.(type) {
+			case *ssa.Field:
+				if core.FieldName(x) == name {
+					for _, oo := range core.Origins(x.X, false) {
+						if oo == ssa.Value(set) {
+							return true
+						}
+					}
+				}
+			case *ssa.UnOp:
+				if fa, ok := x.X.(*ssa.FieldAddr); ok && core.FieldName(fa) == name {
+					// the parameter spilled to a local cell
+					if al, ok := fa.X.(*ssa.Alloc); ok {
+						for _, r := range *al.Referrers() {
+							if st, ok := r.(*ssa.Store); ok && st.Addr == ssa.Value(al) && st.Val == ssa.Value(set) {
+								return true
+							}
+						}
+					}
+				}
+			}
+		}
+		return false
+	}
+	passesWhole := func(call ssa.CallInstruction, set *ssa.Parameter) bool {
+		for _, a := range call.Common().Args {
+			for _, o := range core.Origins(a, false) {
+				if o == ssa.Value(set) {
+					return true
+				}
+				if u, ok := o.(*ssa.UnOp); ok {
+					if al, ok := u.X.(*ssa.Alloc); ok {
+						for _, r := range *al.Referrers() {
+							if st, ok := r.(*ssa.Store); ok && st.Addr == ssa.Value(al) && st.Val == ssa.Value(set) {
+								return true
+							}
+						}
+					}
+				}
+			}
+		}
+		return false
+	}
+	var cands []*ssa.Function
+	for _, fn := range c.P.FuncsIn(true, "lib/query") {
+		if fn.Parent() == nil && isSetParam(fn) != nil {
+			cands = append(cands, fn)
+		}
+	}
+	// always[name][fn]: fn evaluates the operand on every success path
+	always := map[string]map[*ssa.Function]bool{"LHS": {}, "RHS": {}}
+	evaluates := func(fn *ssa.Function, name string) (ok bool, any bool, leak ssa.Instruction) {
+		set := isSetParam(fn)
+		isEval := func(in ssa.Instruction) bool {
+			call, isCall := in.(ssa.CallInstruction)
+			if !isCall {
+				return false
+			}
+			for _, a := range call.Common().Args {
+				if fieldOf(a, set, name) {
+					any = true
+					return true
+				}
+			}
+			if g := call.Common().StaticCallee(); g != nil && g != fn && always[name][g] && passesWhole(call, set) {
+				any = true
+				return true
+			}
+			return false
+		}
+		// does the function evaluate the operand anywhere?
+		for _, b := range fn.Blocks {
+			for _, in := range b.Instrs {
+				isEval(in)
+			}
+		}
+		core.WalkFromEntry(fn, func(in ssa.Instruction) bool {
+			if isEval(in) {
+				return false
+			}
+			if r, isRet := in.(*ssa.Return); isRet && leak == nil && !errorExit(c, r.Block()) {
+				// a return that may report success
+				if n := len(r.Results); n > 0 && core.IsErrorType(r.Results[n-1].Type()) {
+					if k, isConst := r.Results[n-1].(*ssa.Const); isConst && k.Value == nil || !isConst {
+						if _, isCall := r.Results[n-1].(*ssa.Call); !isCall || true {
+							leak = r
+						}
+					}
+				}
+			}
+			return true
+		})
+		return leak == nil, any, leak
+	}
+	for changed := true; changed; {
+		changed = false
+		for _, name := range []string{"LHS", "RHS"} {
+			for _, fn := range cands {
+				if always[name][fn] {
+					continue
+				}
+				if ok, any, _ := evaluates(fn, name); ok && any {
+					always[name][fn] = true
+					changed = true
+				}
+			}
+		}
+	}
+	n := 0
+	for _, fn := range cands {
+		for _, name := range []string{"LHS", "RHS"} {
+			ok, any, leak := evaluates(fn, name)
+			if !any {
+				continue // the function does not deal with this operand (it is given the left-hand view)
+			}
+			n++
+			c.Touch(fn)
+			key := c.KeyAt(fn, "set."+name+" is evaluated on every success path")
+			if ok {
+				c.Ok(key, c.FnPos(fn), "every path to a return that may report success passes the evaluation of the operand")
+			} else {
+				c.Bad(key, c.Pos(leak), fmt.Sprintf("the return at %s can report success without the %s operand having been evaluated: its tables are neither loaded nor — under FOR UPDATE — locked for the rest of the transaction, and an error in that query goes unreported", c.Pos(leak), name))
+			}
+		}
+	}
+	c.Sites += n
 }
